@@ -28,7 +28,8 @@ type cursorManager struct {
 	*Server
 	mu           sync.RWMutex
 	cache        *lru.Cache
-	disableCache bool // Used for testing purposes only
+	sets         uint64 // Number of SetCursor publishes started, guarded by mu
+	disableCache bool   // Used for testing purposes only
 }
 
 func newCursorManager(s *Server) *cursorManager {
@@ -128,6 +129,10 @@ func (c *cursorManager) SetCursor(ctx context.Context, streamName, cursorID stri
 	c.mu.Lock()
 	defer c.mu.Unlock()
 
+	// Let concurrent GetCursor calls know a cursor is being written so they
+	// don't cache what they read from the log before this write.
+	c.sets++
+
 	_, err = c.api.Publish(ctx, &client.PublishRequest{
 		Key:       cursorKey,
 		Value:     serializedCursor,
@@ -167,14 +172,15 @@ func (c *cursorManager) GetCursor(ctx context.Context, streamName, cursorID stri
 		return 0, status.New(codes.FailedPrecondition, "Server not cursor partition leader")
 	}
 
+	c.mu.RLock()
 	if !c.disableCache {
-		c.mu.RLock()
 		if offset, ok := c.cache.Get(string(cursorKey)); ok {
 			c.mu.RUnlock()
 			return offset.(int64), nil
 		}
-		c.mu.RUnlock()
 	}
+	sets := c.sets
+	c.mu.RUnlock()
 
 	// Find the latest offset for the cursor in the log.
 	offset, err := c.getLatestCursorOffset(ctx, cursorKey, partition)
@@ -182,9 +188,13 @@ func (c *cursorManager) GetCursor(ctx context.Context, streamName, cursorID stri
 		return 0, status.New(codes.Internal, err.Error())
 	}
 
-	// Cache the offset.
+	// Cache the offset unless a cursor was set since we started reading the
+	// log: the read may have missed it, and caching the older offset after
+	// SetCursor cached the newer one would make every later fetch stale.
 	c.mu.Lock()
-	c.cache.Add(string(cursorKey), offset)
+	if c.sets == sets {
+		c.cache.Add(string(cursorKey), offset)
+	}
 	c.mu.Unlock()
 
 	return offset, nil
